@@ -59,12 +59,12 @@ PROPS = {}
 
 PROPS["C14"] = dict(
     claim=dict(
-        text="Machine-checked proof (Coq 8.16): the implementation-shaped cache model (recency list of nodes with identities + hash index, transcribed from route_cache.go) refines, for every capacity and every history of Set/Get/Has/Delete/Len, the abstract LRU recency list truncated to its capacity (C14_refines_spec, by an index/list consistency invariant); the clauses of the property (bound, no duplicates, MRU after set/get, exact LRU eviction, replace, delete-only) are theorems about that list. Tie to the code: on every run the extracted model and rux.NewCachedRoutes / a caching router are run on the same generated histories and compared op by op (results and key order through a verif-tag accessor).",
+        text="Machine-checked proof (Coq 8.16): the implementation-shaped cache model (recency list of nodes with identities + hash index, transcribed from route_cache.go) refines, for every capacity and every history of Set/Get/Has/Delete/Len, the abstract LRU recency list truncated to its capacity (C14_refines_spec, by an index/list consistency invariant); the clauses of the property (bound, no duplicates, MRU after set/get, exact LRU eviction, replace, delete-only) are theorems about that list. End to end (SysEnd.v): on a router built by ANY registration program with caching on and capacity >= 1, after any history, a request answered by a dynamic route leaves the key of the lookup that hit (method ++ normalised path; GET ++ path for a HEAD request answered by the GET route) as the most recent key, with its route and parameters, and the cache within its bounds (C14_end_to_end_key, C14_end_to_end_key_table). Tie to the code: on every run the extracted model and rux.NewCachedRoutes / a caching router are run on the same generated histories and compared op by op (results and key order through a verif-tag accessor).",
         note="Trusted: Coq kernel, ExtrOcamlBasic extraction, OCaml driver, Go harness; container/list, Go map and RWMutex are modelled (operations atomic), not verified. The correspondence is differential testing bounded by its generator.",
         technique="Coq proof: refinement of node-list+index cache to an LRU recency list by invariant, for all histories; extracted model vs implementation differential check"),
     n=dict(quick=6000, thorough=60000),
     consts=[],
-    theorems=["C14_router_key", "C14_refines_spec", "C14_bound_nodup", "C14_set_mru", "C14_get_mru", "C14_evict_lru", "C14_replace", "C14_delete_only"],
+    theorems=["C14_router_key", "C14_refines_spec", "C14_bound_nodup", "C14_set_mru", "C14_get_mru", "C14_evict_lru", "C14_replace", "C14_delete_only", "C14_end_to_end_key", "C14_end_to_end_key_table"],
     rule="cases = (capacity 0..9, history of 1..60 Set/Get/Has/Delete/Len over 2..6 keys) against rux.NewCachedRoutes, and request histories "
          "against a caching router; observed after every op: result and key order (verif-tag accessor). Non-trivial = distinct history with at least "
          "one Set into a full cache and one hit (cache part) or at least one dynamic hit served from the cache after an eviction (router part).",
@@ -75,12 +75,12 @@ PROPS["C14"] = dict(
 
 PROPS["C11"] = dict(
     claim=dict(
-        text="Machine-checked proof (Coq 8.16): formatPath (transcribed with its index accesses as explicit panic outcomes) equals, for every string and both StrictLastSlash settings, '/' ++ core(s) (C11_normal_form) - hence it is total (C11_total), registration through simpleFmtPath and group prefixes normalises exactly like lookup (C11_reg_lookup, C11_registered_path for every nesting of prefixes), two spellings reach the same key iff they have the same core (C11_classes, C11_reach) and the normal form has the documented shape (C11_shape). Tie to the code: extracted model and closed-form spec are compared with Route.Path(), Router.Match and ServeHTTP (decoded and escaped path) on generated and, in the thorough tier, exhaustively enumerated short strings.",
+        text="Machine-checked proof (Coq 8.16): formatPath (transcribed with its index accesses as explicit panic outcomes) equals, for every string and both StrictLastSlash settings, '/' ++ core(s) (C11_normal_form) - hence it is total (C11_total), registration through simpleFmtPath and group prefixes normalises exactly like lookup (C11_reg_lookup, C11_registered_path for every nesting of prefixes), two spellings reach the same key iff they have the same core (C11_classes, C11_reach) and the normal form has the documented shape (C11_shape). End to end (SysEnd.v): any router looks a request up through the normal form of its path only - two spellings with the same normal form get the same answer and leave the same router, cache included, behind; so on every router built by a registration program after any history (C11_lookup_by_normal_form, C11_end_to_end). Tie to the code: extracted model and closed-form spec are compared with Route.Path(), Router.Match and ServeHTTP (decoded and escaped path) on generated and, in the thorough tier, exhaustively enumerated short strings.",
         note="Trusted: Coq kernel, extraction, driver, harness; strings.TrimSpace/TrimLeft/TrimRight are modelled on code points (unicode.IsSpace set transcribed), URL decoding is net/url's (an input to the model).",
         technique="Coq proof: closed-form characterisation of the normaliser for all strings; extracted model vs implementation differential check"),
     n=dict(quick=10000, thorough=100000),
     consts=[],
-    theorems=["C11_total", "C11_normal_form", "C11_reg_lookup", "C11_registered_path", "C11_classes", "C11_reach", "C11_shape", "C11_strict_distinguishes"],
+    theorems=["C11_total", "C11_normal_form", "C11_reg_lookup", "C11_registered_path", "C11_classes", "C11_reach", "C11_shape", "C11_strict_distinguishes", "C11_lookup_by_normal_form", "C11_end_to_end"],
     rule="case = (StrictLastSlash, UseEncodedPath, 0..3 nested group prefixes, registered static path, request path as decoded and escaped "
          "string) over the alphabet {/ space tab . a b %2F %20 U+00A0}; request paths are mostly re-spellings / single edits of the registered "
          "path. Observed: Route.Path(), Router.Match hit, ServeHTTP status. Non-trivial = distinct case that hits through a different spelling, "
@@ -209,12 +209,12 @@ PROPS["C01"] = dict(
 )
 PROPS["C02"] = dict(
     claim=dict(
-        text="Machine-checked proof (Coq 8.16) over the grammar-level pattern AST (literals, {name}, {name:regex}, global variables, nested optional tails) and the backtracking matcher in Go's leftmost-first order: for every pattern whose variable regexes have no capture group and every path the compiled expression matches, the captures form a valid decomposition of the path - literals verbatim, every variable of a present part a word of its regex, variables of absent optional parts empty - and capture i is the value of variable i (C02_captures, via capture-threaded soundness of the matcher); handlers receive exactly the variable names bound to those values (C02_params); a pattern matches exactly the decomposable paths (C02_matches_iff); static hits carry nil parameters (C02_static); the cache returns the same parameters as the uncached lookup (C02_cached). Tie to the code: for the route the implementation selected (Router.Match and Context.Params inside handlers, cache on/off, repeated requests) the parameters are compared with pat_params of that route's pattern.",
+        text="Machine-checked proof (Coq 8.16) over the grammar-level pattern AST (literals, {name}, {name:regex}, global variables, nested optional tails) and the backtracking matcher in Go's leftmost-first order: for every pattern whose variable regexes have no capture group and every path the compiled expression matches, the captures form a valid decomposition of the path - literals verbatim, every variable of a present part a word of its regex, variables of absent optional parts empty - and capture i is the value of variable i (C02_captures, via capture-threaded soundness of the matcher); handlers receive exactly the variable names bound to those values (C02_params); a pattern matches exactly the decomposable paths (C02_matches_iff); static hits carry nil parameters (C02_static); the cache returns the same parameters as the uncached lookup (C02_cached). End to end through the whole-router function (SysEnd.v): on a router built by a registration program with a printable table, after any history and with the cache on or off, the parameters the handlers of the selected route receive are none for a static route and exactly the pattern's decomposition of the normalised path for a dynamic one (C02_end_to_end, C02_end_to_end_values). Tie to the code: for the route the implementation selected (Router.Match and Context.Params inside handlers, cache on/off, repeated requests) the parameters are compared with pat_params of that route's pattern.",
         note="Trusted: Coq kernel, extraction, driver, harness; Go's regexp is modelled by the backtracking matcher on the parser subset. Uniqueness of the decomposition is proved for segment-shaped item lists (every variable slash-free and delimited by the end or a literal starting with '/': C02_unique); for other patterns the judge compares with the leftmost-first captures, which is what Go returns. Distinct variable names are assumed for C02_params.",
         technique="Coq proof: capture soundness of a backtracking regex matcher lifted to route patterns with optional tails; assume-guarantee differential check against the implementation"),
     n=dict(quick=3000, thorough=40000),
     consts=["global-vars", "any-match"],
-    theorems=["C02_captures", "C02_params", "C02_unique", "C02_matches_iff", "C02_static", "C02_cached"],
+    theorems=["C02_captures", "C02_params", "C02_unique", "C02_matches_iff", "C02_static", "C02_cached", "C02_end_to_end", "C02_end_to_end_values"],
     rule="case = table of 1..6 routes as for C01, cache on (capacity 0..4) in half of the cases; probes through Router.Match and ServeHTTP (Context.Params inside "
          "the handler), a third of them repeated so that cache hits occur. For the route the implementation selected, its parameters are compared with the "
          "captures of that route's pattern. Non-trivial = distinct table with >= 2 routes and >= 2 hits.",
@@ -223,12 +223,12 @@ PROPS["C02"] = dict(
 )
 PROPS["C06"] = dict(
     claim=dict(
-        text="Machine-checked proof (Coq 8.16): for every grammar-level table, every combination of StrictLastSlash / HandleMethodNotAllowed / HandleFallbackRoute, every '/'-free method and every path, QuickMatch equals the documented decision list: direct match; else for HEAD the GET match; else the '/*' route registered for the method when fallback handling is on; else not-allowed with the allowed set equal to exactly the other methods that match, when 405 handling is on and that set is non-empty; else not found (C06_order, on top of C01_selection); caching does not change the resolution (C06_cached); with InterceptAll(q) every request resolves exactly as a request for q on the same router without the option (C06_intercept, C06_intercept_as_request); the intercept path is normalised like a request path (F14 refuted witness for the old code); the default handlers are 405 + sorted Allow (200 for OPTIONS) and 404 (C06_default_*). Tie to the code: tables x random option combinations (incl. caching, InterceptAll in several spellings, '/*' routes per method) x custom/default fallback handlers x probes with HEAD, OPTIONS, unknown methods through Router.Match and ServeHTTP; resolution, status, Allow header and who ran are compared with the extracted model and judged by the ladder computed from the grammar-level table. Added later: C06_string_level_order - the same ladder for the string-level router built from pattern texts, on printable tables (TableLink.v).",
+        text="Machine-checked proof (Coq 8.16): for every grammar-level table, every combination of StrictLastSlash / HandleMethodNotAllowed / HandleFallbackRoute, every '/'-free method and every path, QuickMatch equals the documented decision list: direct match; else for HEAD the GET match; else the '/*' route registered for the method when fallback handling is on; else not-allowed with the allowed set equal to exactly the other methods that match, when 405 handling is on and that set is non-empty; else not found (C06_order, on top of C01_selection); caching does not change the resolution (C06_cached); with InterceptAll(q) every request resolves exactly as a request for q on the same router without the option (C06_intercept, C06_intercept_as_request); the intercept path is normalised like a request path (F14 refuted witness for the old code); the default handlers are 405 + sorted Allow (200 for OPTIONS) and 404 (C06_default_*). End to end (SysEnd.v): on a router built by a registration program, after any history, a 'not allowed' / 'not found' answer of the ladder is dispatched to the NotAllowed / NotFound target with the chain globals ++ (custom handlers or the default one), and with no custom handlers the response is 405 + the http.Error text (200, empty body for OPTIONS) with the allowed methods in the context, resp. 404 (C06_end_to_end_*). Tie to the code: tables x random option combinations (incl. caching, InterceptAll in several spellings, '/*' routes per method) x custom/default fallback handlers x probes with HEAD, OPTIONS, unknown methods through Router.Match and ServeHTTP; resolution, status, Allow header and who ran are compared with the extracted model and judged by the ladder computed from the grammar-level table. Added later: C06_string_level_order - the same ladder for the string-level router built from pattern texts, on printable tables (TableLink.v).",
         note="Trusted: Coq kernel, extraction, driver, harness; as C01 for the string-level front end. C06_order is stated for routers without caching and InterceptAll; caching is covered by C06_cached/C07, InterceptAll by C06_intercept plus the correspondence.",
         technique="Coq proof: QuickMatch = decision list over spec_select; extracted model vs implementation differential check"),
     n=dict(quick=3000, thorough=40000),
     consts=["any-methods"],
-    theorems=["C06_order", "C06_cached", "C06_intercept", "C06_intercept_as_request", "C06_default_405", "C06_default_404"],
+    theorems=["C06_order", "C06_cached", "C06_intercept", "C06_intercept_as_request", "C06_default_405", "C06_default_404", "C06_end_to_end_not_allowed", "C06_end_to_end_not_found", "C06_end_to_end_405", "C06_end_to_end_404"],
     rule="case = table as for C01 (+ '/*' routes for all / one / two methods) x random combination of StrictLastSlash, HandleMethodNotAllowed, HandleFallbackRoute, "
          "caching, InterceptAll(p in several spellings) x custom or default NotFound/NotAllowed x 14 probes (table methods, HEAD, OPTIONS, unknown/lower-case "
          "methods) through Router.Match and ServeHTTP. Observed: resolution (route / allowed set / not found), status, Allow header, who ran. "
@@ -250,12 +250,12 @@ PROPS["C07"] = dict(
 )
 PROPS["C13"] = dict(
     claim=dict(
-        text="Machine-checked proof (Coq 8.16): each rejected class makes registration panic in the model - nil handler, no method, a method that is not exactly one of the nine, options after routes, 63 or more handlers, an uncompilable expression, a number of capturing groups different from the number of variables, an optional part not at the end (C13_rejects_*); every router reachable by accepted registrations is well formed (ids within range, group count = name count: C13_wf_initial, C13_wf_preserved) and on a well-formed router no method string and no path string makes QuickMatch panic, with any options incl. caching without routes (C13_total_lookup, using totality of formatPath). F05 is kept as a refuted witness. Tie to the code: a malformed-definition stream (incl. handler counts around 63/127/128/255/256) is registered against the real router, accept/reject compared with the model where the regex is inside the parser subset; for all accepted definitions hostile lookups (empty, white space, non-UTF-8, long) must not panic (direct oracle, independent of the model).",
+        text="Machine-checked proof (Coq 8.16): each rejected class makes registration panic in the model - nil handler, no method, a method that is not exactly one of the nine, options after routes, 63 or more handlers, an uncompilable expression, a number of capturing groups different from the number of variables, an optional part not at the end (C13_rejects_*); every router reachable by accepted registrations is well formed (ids within range, group count = name count: C13_wf_initial, C13_wf_preserved) and on a well-formed router no method string and no path string makes QuickMatch panic, with any options incl. caching without routes (C13_total_lookup, using totality of formatPath). F05 is kept as a refuted witness. End to end (SysEnd.v): on a router built by a registration program with a printable table every request - any '/'-free method, any path text - after any history is answered: no lookup panic, no unsupported expression, no route id outside the table (C13_end_to_end_total, _history). Tie to the code: a malformed-definition stream (incl. handler counts around 63/127/128/255/256) is registered against the real router, accept/reject compared with the model where the regex is inside the parser subset; for all accepted definitions hostile lookups (empty, white space, non-UTF-8, long) must not panic (direct oracle, independent of the model).",
         note="PARTIAL: the theorem covers pattern strings whose regex text is inside the modelled syntax subset (RxParse.v); full Go regexp syntax is only explored by the direct no-panic oracle. Trusted: Coq kernel, extraction, driver, harness; Go regexp modelled.",
         technique="Coq proof: well-formedness invariant of the router tables implies panic-free lookup; rejection lemmas; differential + direct no-panic oracle"),
     n=dict(quick=6000, thorough=60000),
     consts=["any-methods", "abort-index"],
-    theorems=["C13_rejects_nil_handler", "C13_rejects_unknown_method", "C13_rejects_capturing_group", "C13_wf_preserved", "C13_total_lookup"],
+    theorems=["C13_rejects_nil_handler", "C13_rejects_unknown_method", "C13_rejects_capturing_group", "C13_wf_preserved", "C13_total_lookup", "C13_end_to_end_total", "C13_end_to_end_total_history"],
     rule="case = 0..3 well-formed routes + 0..4 definitions from a malformed-pattern stream (unbalanced braces/brackets, capturing groups, optional part not at the end, "
          "uncompilable regexes, stray metacharacters, mutations) with near-miss method names and occasional nil handlers, random options (incl. caching without "
          "routes, InterceptAll), 12 hostile lookups (empty, white-space, non-UTF-8, very long, encoded). Observed: accept/reject per definition, panic per lookup. "
